@@ -1,10 +1,23 @@
 /- C10 — deserializeJson accepts exactly the documented dialect and classifies the rest.
-   This file: the token-level facts the classification rests on, for every byte (not samples): which bytes `\u` accepts as hex
-   digits, which escape letters exist, which literals become integers. The whole-parser statement (accepts iff in the dialect) is
-   tied by the bounded-exhaustive correspondence + the independent recognizer tools/dialect.py; see DESIGN.md. -/
+   * token-level facts, for every byte: `hex_digit_iff`, `escape_letters`, `uint_literal_iff`;
+   * the dialect as a relational grammar: AJ/Spec/Dialect.lean (`Spec.Dialect.Value`, `DWs`, `Doc`);
+   * `sound` (Ok ⇒ the input is a text of the dialect and the value is the one the dialect assigns), `complete` /
+     `complete_doc` (the converse), `ok_iff_dialect` (both), for EVERY configuration, nesting limit and input;
+   * `unclosed_never_ok`, `unclosed_refused`: an input whose top-level array / object / string is not closed is never accepted;
+   * classification: `empty_iff`, `disabled_comments`, `disabled_nan`, `disabled_inf`, `disabled_options`
+     (TooDeep is AJ/Props/C15.lean, termination and the list of codes AJ/Props/C03.lean);
+   * `Examples`: non-vacuity and kernel-checked facts about corners of the dialect.
+   Helper lemmas: AJ/Lemmas/DialectSound*.lean (soundness), DialectWs / DialectComplete*.lean (completeness),
+   DialectFound / DialectClass.lean (classification), DialectUnique.lean (leading white space is unique). -/
 import AJ.Props.C12
 import AJ.Spec.Unicode
 import AJ.Lemmas.Bits
+import AJ.Spec.Dialect
+import AJ.Lemmas.DialectSound2
+import AJ.Lemmas.DialectClass
+import AJ.Lemmas.DialectComplete2
+import AJ.Lemmas.DialectUnique
+set_option linter.unusedSimpArgs false
 namespace C10
 open JD
 
@@ -43,4 +56,366 @@ theorem uint_literal_iff (cfg : Cfg) (s : List UInt8) (m : Nat) :
 
 example : decodeHex 0x3A > 0x0F := by decide +kernel        -- ':' is not a hex digit
 example : unescapeChar 0x78 = 0 := by decide +kernel         -- \x is not an escape
+
+/-! ## Soundness: `Ok` only on texts of the dialect, with the value the dialect assigns
+
+`Spec.Dialect` (AJ/Spec/Dialect.lean) is the dialect as a relational grammar. `Doc cfg L t v` says: `t` is dialect
+white space (with comments only when `cfg.comments`), then a value text denoting `v` within the limits, then a trailer
+(arbitrary, except after a number: white space, NUL or the end). No hypothesis on `cfg`, `L` or `t`. -/
+open Spec.Dialect in
+/-- **C10 (soundness).** Whenever the deserializer answers `Ok`, the input is a text of the documented dialect and the
+    document it produced is the one the dialect assigns to that text. Every input outside the dialect is therefore
+    answered with an error code. -/
+theorem sound (cfg : Cfg) (L : Nat) (t : List UInt8) (h : (JD.run cfg L t).1 = .ok) :
+    ∃ w body rest, t = w ++ body ++ rest ∧ DWs cfg w ∧ Value cfg L body (JD.run cfg L t).2.1 ∧
+      (isNumberVal (JD.run cfg L t).2.1 = true → rest.headD 0 = 0 ∨ isWs (rest.headD 0) = true) :=
+  run_sound cfg L t h
+
+open Spec.Dialect in
+/-- the contrapositive: a text that is not in the dialect is refused -/
+theorem not_dialect_refused (cfg : Cfg) (L : Nat) (t : List UInt8) (h : ¬ ∃ v, Doc cfg L t v) :
+    (JD.run cfg L t).1 ≠ .ok := fun hok => h ⟨_, run_sound cfg L t hok⟩
+
+open Spec.Dialect in
+/-- a container or string value ends with its closing delimiter -/
+theorem value_closed {cfg : Cfg} {L : Nat} {body : List UInt8} {v : Val} (h : Value cfg L body v) :
+    ∃ c mid, body = c :: mid ∧ (c = 0x5B → ∃ m, mid = m ++ [0x5D]) ∧ (c = 0x7B → ∃ m, mid = m ++ [0x7D]) ∧
+      (IsQuote c → ∃ m, mid = m ++ [c]) := by
+  cases h with
+  | null => exact ⟨_, _, rfl, (fun h => absurd h (by decide)), (fun h => absurd h (by decide)), by intro h; rcases h with h | h <;> cases h⟩
+  | «true» => exact ⟨_, _, rfl, (fun h => absurd h (by decide)), (fun h => absurd h (by decide)), by intro h; rcases h with h | h <;> cases h⟩
+  | «false» => exact ⟨_, _, rfl, (fun h => absurd h (by decide)), (fun h => absurd h (by decide)), by intro h; rcases h with h | h <;> cases h⟩
+  | num _ _ _ hn =>
+    obtain ⟨_, hch, _, hden⟩ := hn
+    cases body with
+    | nil =>
+      have : parseNumber cfg [] = .invalid := by
+        simp only [parseNumber, List.headD_nil]
+        have e1 : ((0 : UInt8) == 0x6E || (0 : UInt8) == 0x4E) = false := by decide
+        have e2 : ((0 : UInt8) == 0x69 || (0 : UInt8) == 0x49) = false := by decide
+        have e3 : (!(isDigit 0) && (0 : UInt8) != 0x2E) = true := by decide
+        simp only [e1, e2, e3, Bool.and_false, Bool.false_eq_true, ↓reduceIte]
+      simp only [numDen, this] at hden
+      cases hden
+    | cons c l =>
+      have hc := hch c (List.mem_cons_self ..)
+      have key : ∀ b : Bool, ∀ c : UInt8, (!((decide (0x30 ≤ c) && decide (c ≤ 0x39)) || c == 0x2B || c == 0x2D || c == 0x2E ||
+          (if b then (decide (0x41 ≤ c) && decide (c ≤ 0x5A)) || (decide (0x61 ≤ c) && decide (c ≤ 0x7A)) else c == 0x65 || c == 0x45)) ||
+          (c != 0x5B && c != 0x7B && c != 0x22 && c != 0x27)) = true := by
+        intro b; cases b <;> (apply Bits.all_bytes; decide +kernel)
+      have hk := key (cfg.nan || cfg.inf) c
+      unfold inNumber at hc
+      rw [hc] at hk
+      simp only [Bool.not_true, Bool.false_or, Bool.and_eq_true, bne_iff_ne, ne_eq] at hk
+      obtain ⟨⟨⟨a1, a2⟩, a3⟩, a4⟩ := hk
+      exact ⟨c, l, rfl, fun h => absurd h a1, fun h => absurd h a2, fun h => by rcases h with h | h; exact absurd h a3; exact absurd h a4⟩
+  | str _ q b s hq _ _ =>
+    refine ⟨q, b ++ [q], by simp, ?_, ?_, fun _ => ⟨b, rfl⟩⟩
+    · intro h; rcases hq with rfl | rfl <;> cases h
+    · intro h; rcases hq with rfl | rfl <;> cases h
+  | arrEmpty _ w _ =>
+    exact ⟨0x5B, w ++ [0x5D], by simp, fun _ => ⟨w, rfl⟩, (fun h => absurd h (by decide)), by intro h; rcases h with h | h <;> cases h⟩
+  | arr _ b _ _ =>
+    exact ⟨0x5B, b ++ [0x5D], by simp, fun _ => ⟨b, rfl⟩, (fun h => absurd h (by decide)), by intro h; rcases h with h | h <;> cases h⟩
+  | objEmpty _ w _ =>
+    exact ⟨0x7B, w ++ [0x7D], by simp, (fun h => absurd h (by decide)), fun _ => ⟨w, rfl⟩, by intro h; rcases h with h | h <;> cases h⟩
+  | obj _ b _ _ =>
+    exact ⟨0x7B, b ++ [0x7D], by simp, (fun h => absurd h (by decide)), fun _ => ⟨b, rfl⟩, by intro h; rcases h with h | h <;> cases h⟩
+
+open Spec.Dialect in
+/-- **C10 (unclosed input is never accepted).** If the answer is `Ok`, the input is white space followed by a value
+    text `body` that is complete: when `body` starts with `[`, `{` or a quote, the matching `]`, `}` or quote closes it
+    INSIDE the input (what follows `body` is the ignored trailer). -/
+theorem unclosed_never_ok (cfg : Cfg) (L : Nat) (t : List UInt8) (h : (JD.run cfg L t).1 = .ok) :
+    ∃ w c mid rest, t = w ++ (c :: mid) ++ rest ∧ DWs cfg w ∧
+      (c = 0x5B → ∃ m, mid = m ++ [0x5D]) ∧ (c = 0x7B → ∃ m, mid = m ++ [0x7D]) ∧ (IsQuote c → ∃ m, mid = m ++ [c]) := by
+  obtain ⟨w, body, rest, ht, hw, hv, _⟩ := run_sound cfg L t h
+  obtain ⟨c, mid, rfl, h1, h2, h3⟩ := value_closed hv
+  exact ⟨w, c, mid, rest, ht, hw, h1, h2, h3⟩
+
+/-- the byte that closes what `c` opens: `]` for `[`, `}` for `{`, the same quote for a quote -/
+def closer (c : UInt8) : UInt8 := if c = 0x5B then 0x5D else if c = 0x7B then 0x7D else c
+
+open Spec.Dialect in
+/-- **C10 (unclosed input is never accepted), in terms of the input alone.** An input made of white space, then `[`, `{`
+    or a quote, in which the closing `]`, `}` or quote does not occur any more, is never answered with `Ok` — whatever
+    the configuration and the nesting limit. -/
+theorem unclosed_refused (cfg : Cfg) (L : Nat) (w r : List UInt8) (c : UInt8) (hw : DWs cfg w)
+    (hc : c = 0x5B ∨ c = 0x7B ∨ IsQuote c) (hun : closer c ∉ r) : (JD.run cfg L (w ++ c :: r)).1 ≠ .ok := by
+  intro hok
+  obtain ⟨w', body, rest, ht, hw', hv, _⟩ := run_sound cfg L _ hok
+  obtain ⟨c', cs, rfl, tok, _, _⟩ := value_head_d hv
+  obtain ⟨c'', mid, hb, h1, h2, h3⟩ := value_closed hv
+  obtain ⟨rfl, rfl⟩ := List.cons.inj hb
+  have nows : ∀ x : UInt8, Tok x → NoWs x := by
+    intro x hx
+    refine ⟨fun hws => ?_, hx.2.2⟩
+    have := (ws_byte hws).2
+    rw [hx.2.1] at this
+    cases this
+  have hcNoWs : NoWs c := by
+    rcases hc with rfl | rfl | rfl | rfl <;> exact nows _ (by decide)
+  have ht' : w ++ c :: r = w' ++ c' :: (cs ++ rest) := by rw [ht]; simp
+  obtain ⟨_, rfl, rfl⟩ := dws_prefix_unique hw hw' hcNoWs (nows _ tok) ht'
+  apply hun
+  rcases hc with rfl | rfl | hq
+  · obtain ⟨m, rfl⟩ := h1 rfl; simp [closer]
+  · obtain ⟨m, rfl⟩ := h2 rfl; simp [closer]
+  · obtain ⟨m, rfl⟩ := h3 hq
+    have : closer c = c := by
+      rcases hq with rfl | rfl <;> rfl
+    rw [this]; simp
+
+/-! ## Completeness: every text of the dialect is accepted, with the value the dialect assigns -/
+
+open Spec.Dialect in
+/-- **C10 (completeness of the value parser).** Same conclusion as `C01.value_complete`, for the whole dialect and for
+    every configuration: from an unloaded latch standing on `w ++ t ++ rest` (`w` dialect white space, `t` a value text
+    of the dialect denoting `v`), `parseVariant` with fuel `≥ |w| + |t| + 1` returns `Ok` and exactly `v`, having consumed
+    exactly `w ++ t` (after a number the following byte is latched). Side condition as in C01: after a number token the
+    next byte must not be a number byte. Covers single-quoted strings and `\'`, raw control characters, unquoted keys,
+    comments (when enabled), the lenient numbers `+1 .5 1. 1e 01`, `NaN` / `Infinity` (when enabled). -/
+theorem complete (cfg : Cfg) {L : Nat} {t : List UInt8} {v : Val}
+    (h : Value cfg L t v) (fuel : Nat) (w rest : List UInt8) (s : St)
+    (hw : DWs cfg w) (h1 : s.l.loaded = false) (h2 : s.l.unread = w ++ t ++ rest)
+    (hfuel : w.length + t.length + 1 ≤ fuel) (hd : isNumberVal v = true → Delim cfg rest) :
+    ∃ s', parseVariant cfg fuel L s = (.ok, v, s') ∧ s'.found = true ∧
+      (if isNumberVal v then
+         s'.l.loaded = true ∧ s'.l.cur = rest.headD 0 ∧ s'.l.unread = rest.tail ∧
+         s'.l.pos = s.l.pos + w.length + t.length + min 1 rest.length
+       else s'.l.loaded = false ∧ s'.l.unread = rest ∧ s'.l.pos = s.l.pos + w.length + t.length) := by
+  have hs : At s (w ++ (t ++ rest)) s.l.pos s.found := ⟨h1, by rw [h2, List.append_assoc], rfl, rfl⟩
+  obtain ⟨s', hp, hpost⟩ := dcomplete_value h fuel w rest s s.l.pos s.found hw hs.pos hfuel hd
+  refine ⟨s', hp, ?_⟩
+  unfold Post at hpost
+  split at hpost
+  · rename_i hn
+    obtain ⟨f1, f2, f3, f4, f5⟩ := hpost.fields
+    exact ⟨f5, by simp only [hn, ↓reduceIte]; exact ⟨f1, f2, f3, f4⟩⟩
+  · rename_i hn
+    exact ⟨hpost.2.2.2, by simp only [hn, ↓reduceIte]; exact ⟨hpost.1, hpost.2.1, hpost.2.2.1⟩⟩
+
+open Spec.Dialect in
+/-- **C10 (completeness).** A text of the dialect (white space, value, trailer) is answered with `Ok` and the document
+    the dialect assigns. -/
+theorem complete_doc (cfg : Cfg) {L : Nat} {t : List UInt8} {v : Val} (h : Doc cfg L t v) :
+    (JD.run cfg L t).1 = .ok ∧ (JD.run cfg L t).2.1 = v := by
+  obtain ⟨w, body, rest, rfl, hw, hv, htr⟩ := h
+  have hrun : JD.run cfg L (w ++ body ++ rest) =
+      (match parseVariant cfg (2 * (w ++ body ++ rest).length + 4) L { l := { unread := w ++ body ++ rest } } with
+       | (.ok, v, s) =>
+         if s.l.cur != 0 && !isWs s.l.cur && isNumberVal v then (.invalid, v, s.l.pos) else (.ok, v, s.l.pos)
+       | (e, v, s) => (e, v, s.l.pos)) := rfl
+  have hd : isNumberVal v = true → Delim cfg rest := by
+    intro hn c r hr
+    have := htr hn
+    rw [hr] at this
+    rcases this with h0 | hws
+    · have : c = 0 := h0
+      subst this; exact inNumber_zero cfg
+    · exact (sep_facts cfg c (Or.inl hws)).1
+  obtain ⟨s', hp, _, hpost⟩ := complete cfg hv (2 * (w ++ body ++ rest).length + 4) w rest
+    { l := { unread := w ++ body ++ rest } } hw rfl rfl (by simp; omega) hd
+  rw [hrun, hp]
+  cases hn : isNumberVal v with
+  | false => simp only [hn, Bool.and_false, Bool.false_eq_true, ↓reduceIte, and_self]
+  | true =>
+    rw [hn] at hpost
+    simp only [↓reduceIte] at hpost
+    have hc : (s'.l.cur != 0 && !isWs s'.l.cur) = false := by
+      rw [hpost.2.1]
+      rcases htr hn with h0 | hws
+      · rw [h0]; rfl
+      · rw [hws]; simp
+    simp only [hc, hn, Bool.false_and, Bool.false_eq_true, ↓reduceIte, and_self]
+
+open Spec.Dialect in
+/-- **C10 (the dialect is exactly what is accepted).** `Ok` with the document `v` if and only if the input is a text of
+    the dialect denoting `v`: for every configuration, nesting limit and input. -/
+theorem ok_iff_dialect (cfg : Cfg) (L : Nat) (t : List UInt8) (v : Val) :
+    ((JD.run cfg L t).1 = .ok ∧ (JD.run cfg L t).2.1 = v) ↔ Doc cfg L t v := by
+  constructor
+  · rintro ⟨h1, rfl⟩; exact run_sound cfg L t h1
+  · exact complete_doc cfg
+
+open Spec.Dialect in
+/-- acceptance alone -/
+theorem accepts_iff (cfg : Cfg) (L : Nat) (t : List UInt8) : (JD.run cfg L t).1 = .ok ↔ ∃ v, Doc cfg L t v :=
+  ⟨fun h => ⟨_, run_sound cfg L t h⟩, fun ⟨_, h⟩ => (complete_doc cfg h).1⟩
+
+/-! ## Classification -/
+
+open Spec.Dialect in
+/-- **C10 (EmptyInput).** The answer is `EmptyInput` exactly when the text — the input up to its first NUL, all of it
+    if there is none — consists of white space only (RFC white space; with `cfg.comments` also complete comments). -/
+theorem empty_iff (cfg : Cfg) (L : Nat) (t : List UInt8) :
+    (JD.run cfg L t).1 = .empty ↔ DWs cfg (t.takeWhile (· != 0)) :=
+  run_empty_iff cfg L t
+
+open Spec.Dialect in
+/-- **C10 (comments disabled).** Without `cfg.comments` a `/` where a value is expected is `InvalidInput`, whatever
+    follows it. -/
+theorem disabled_comments (cfg : Cfg) (hc : cfg.comments = false) (L : Nat) (w rest : List UInt8) (hw : DWs cfg w) :
+    (JD.run cfg L (w ++ 0x2F :: rest)).1 = .invalid := by
+  refine run_badStart cfg L w rest 0x2F hw (by decide) (by decide) (by rw [hc]; rfl) (by decide) ?_
+  refine ⟨by decide, by decide, by decide, by decide, ?_, ?_⟩
+  · cases cfg.nan <;> rfl
+  · cases cfg.inf <;> rfl
+
+open Spec.Dialect in
+/-- **C10 (NaN disabled).** Without `cfg.nan` a value that starts with `N` — in particular `NaN` — is `InvalidInput`. -/
+theorem disabled_nan (cfg : Cfg) (hn : cfg.nan = false) (L : Nat) (w rest : List UInt8) (hw : DWs cfg w) :
+    (JD.run cfg L (w ++ 0x4E :: rest)).1 = .invalid := by
+  refine run_badStart cfg L w rest 0x4E hw (by decide) (by decide) (by cases cfg.comments <;> rfl) (by decide) ?_
+  refine ⟨by decide, by decide, by decide, by decide, ?_, ?_⟩
+  · rw [hn]; rfl
+  · cases cfg.inf <;> rfl
+
+open Spec.Dialect in
+/-- **C10 (Infinity disabled).** Without `cfg.inf` a value that starts with `I` — in particular `Infinity` — is
+    `InvalidInput`. -/
+theorem disabled_inf (cfg : Cfg) (hi : cfg.inf = false) (L : Nat) (w rest : List UInt8) (hw : DWs cfg w) :
+    (JD.run cfg L (w ++ 0x49 :: rest)).1 = .invalid := by
+  refine run_badStart cfg L w rest 0x49 hw (by decide) (by decide) (by cases cfg.comments <;> rfl) (by decide) ?_
+  refine ⟨by decide, by decide, by decide, by decide, ?_, ?_⟩
+  · cases cfg.nan <;> rfl
+  · rw [hi]; rfl
+
+open Spec.Dialect in
+/-- the three texts of the property statement, with the default configuration (all options off) -/
+theorem disabled_options (L : Nat) (rest : List UInt8) :
+    (JD.run {} L (0x2F :: rest)).1 = .invalid ∧                                   -- `/…`
+    (JD.run {} L ([0x4E, 0x61, 0x4E] ++ rest)).1 = .invalid ∧                     -- `NaN…`
+    (JD.run {} L ([0x49, 0x6E, 0x66, 0x69, 0x6E, 0x69, 0x74, 0x79] ++ rest)).1 = .invalid :=   -- `Infinity…`
+  ⟨disabled_comments {} rfl L [] rest DWs.nil, disabled_nan {} rfl L [] _ DWs.nil, disabled_inf {} rfl L [] _ DWs.nil⟩
+
+/-! ## Non-vacuity -/
+namespace Examples
+open Spec.Dialect
+
+/-- comments, NaN and Infinity enabled -/
+def cfgD : Cfg := { comments := true, nan := true, inf := true }
+
+/-- the text `/*c*/ {a:'x\'',"b":[+1,.5,NaN,-Infinity]}//x` -/
+def dialectText : List UInt8 :=
+  [0x2F, 0x2A, 0x63, 0x2A, 0x2F, 0x20, 0x7B, 0x61, 0x3A, 0x27, 0x78, 0x5C, 0x27, 0x27, 0x2C, 0x22, 0x62, 0x22, 0x3A, 0x5B,
+   0x2B, 0x31, 0x2C, 0x2E, 0x35, 0x2C, 0x4E, 0x61, 0x4E, 0x2C, 0x2D, 0x49, 0x6E, 0x66, 0x69, 0x6E, 0x69, 0x74, 0x79, 0x5D,
+   0x7D, 0x2F, 0x2F, 0x78]
+
+theorem dialectText_ok : (JD.run cfgD 10 dialectText).1 = .ok := by decide +kernel
+
+/-- `sound` on a text that uses every extension: it is in the dialect -/
+example : ∃ w body rest, dialectText = w ++ body ++ rest ∧ DWs cfgD w ∧
+    Value cfgD 10 body (JD.run cfgD 10 dialectText).2.1 ∧
+    (isNumberVal (JD.run cfgD 10 dialectText).2.1 = true → rest.headD 0 = 0 ∨ isWs (rest.headD 0) = true) :=
+  sound cfgD 10 dialectText dialectText_ok
+
+/-- the same text is refused by the default configuration (the comment) -/
+example : (JD.run {} 10 dialectText).1 = .invalid := disabled_comments {} rfl 10 [] _ DWs.nil
+
+/-- `unclosed_refused` on `  [1,[2,3` (no `]` at all) -/
+example : (JD.run {} 10 ([0x20, 0x20] ++ 0x5B :: [0x31, 0x2C, 0x5B, 0x32, 0x2C, 0x33])).1 ≠ .ok :=
+  unclosed_refused {} 10 [0x20, 0x20] _ 0x5B (DWs.ws _ _ (Or.inl rfl) (DWs.ws _ _ (Or.inl rfl) DWs.nil)) (Or.inl rfl)
+    (by decide)
+
+/-- unclosed array / object / string: never `Ok` (here: `IncompleteInput`), consistent with `unclosed_never_ok` -/
+example : (JD.run {} 10 [0x5B, 0x31, 0x2C, 0x32]).1 = .incomplete := by decide +kernel          -- `[1,2`
+example : (JD.run {} 10 [0x7B, 0x22, 0x61, 0x22, 0x3A, 0x31]).1 = .incomplete := by decide +kernel  -- `{"a":1`
+example : (JD.run {} 10 [0x27, 0x61, 0x62]).1 = .incomplete := by decide +kernel                -- `'ab`
+
+/-- white space and a complete comment only: `EmptyInput`, by `empty_iff` -/
+example : (JD.run cfgD 10 [0x20, 0x2F, 0x2A, 0x2A, 0x2F, 0x0A]).1 = .empty :=
+  (empty_iff cfgD 10 _).mpr (by
+    show DWs cfgD [0x20, 0x2F, 0x2A, 0x2A, 0x2F, 0x0A]
+    exact DWs.ws _ _ (Or.inl rfl) (DWs.block [0x2A, 0x2F] [0x0A] rfl
+      (Block.step false 0x2A [0x2F] (by decide) (by decide) Block.close) (DWs.ws _ _ (Or.inr (Or.inr (Or.inl rfl))) DWs.nil)))
+
+/-- `/*/` is not a complete comment: not white space, hence not `EmptyInput` (it is `IncompleteInput`) -/
+example : (JD.run cfgD 10 [0x2F, 0x2A, 0x2F]).1 = .incomplete := by decide +kernel
+
+/-! ### completeness: explicit derivations -/
+
+theorem numTok_of {cfg : Cfg} {lit : List UInt8} {n : PNum} {v : Val} (hp : parseNumber cfg lit = n)
+    (hv : (match n with
+      | .uint n => some (.num (.uint n)) | .sint n => some (.num (.sint n)) | .f32 b => some (.num (.f32 b))
+      | .f64 b => some (.num (storeDouble b)) | .invalid => none | .fault => none) = some v)
+    (h1 : lit.length ≤ 63) (h2 : ∀ c ∈ lit, inNumber cfg c = true) (h3 : lit.head? ≠ some 0x6E) : NumTok cfg lit v := by
+  refine ⟨h1, h2, h3, ?_⟩
+  unfold numDen
+  rw [hp]
+  cases n <;> exact hv
+
+/-- the lenient spellings `+1`, `.5`, `1.`, `1e`, `01` (and even `.`) are number tokens of the dialect, with every
+    configuration flag off; `-` alone is not -/
+theorem lenient_numbers :
+    NumTok {} [0x2B, 0x31] (.num (.uint 1)) ∧ NumTok {} [0x2E, 0x35] (.num (.f32 0x3F000000)) ∧
+    NumTok {} [0x31, 0x2E] (.num (.f32 0x3F800000)) ∧ NumTok {} [0x31, 0x65] (.num (.f32 0x3F800000)) ∧
+    NumTok {} [0x30, 0x31] (.num (.uint 1)) ∧ NumTok {} [0x2E] (.num (.f32 0)) ∧ (∀ v, ¬ NumTok {} [0x2D] v) := by
+  refine ⟨?_, ?_, ?_, ?_, ?_, ?_, ?_⟩
+  · exact numTok_of (n := .uint 1) (by decide +kernel) rfl (by decide) (by decide) (by decide)
+  · exact numTok_of (n := .f32 0x3F000000) (by decide +kernel) rfl (by decide) (by decide) (by decide)
+  · exact numTok_of (n := .f32 0x3F800000) (by decide +kernel) rfl (by decide) (by decide) (by decide)
+  · exact numTok_of (n := .f32 0x3F800000) (by decide +kernel) rfl (by decide) (by decide) (by decide)
+  · exact numTok_of (n := .uint 1) (by decide +kernel) rfl (by decide) (by decide) (by decide)
+  · exact numTok_of (n := .f32 0) (by decide +kernel) rfl (by decide) (by decide) (by decide)
+  · intro v h
+    have hp : parseNumber {} [0x2D] = .invalid := by decide +kernel
+    have := h.2.2.2
+    simp only [numDen, hp] at this
+    cases this
+
+/-- the text `/**/{a:'x\'"',"n":[+1,.5]}` followed by arbitrary bytes, with comments enabled -/
+def objText : List UInt8 :=
+  [0x2F, 0x2A, 0x2A, 0x2F, 0x7B, 0x61, 0x3A, 0x27, 0x78, 0x5C, 0x27, 0x22, 0x27, 0x2C, 0x22, 0x6E, 0x22, 0x3A, 0x5B, 0x2B, 0x31,
+   0x2C, 0x2E, 0x35, 0x5D, 0x7D]
+
+def cfgC : Cfg := { comments := true }
+
+theorem objValue : Value cfgC 2 (objText.drop 4)
+    (.obj [([0x61], .str [0x78, 0x27, 0x22]), ([0x6E], .arr [.num (.uint 1), .num (.f32 0x3F000000)])]) := by
+  have n1 : NumTok cfgC [0x2B, 0x31] (.num (.uint 1)) :=
+    numTok_of (n := .uint 1) (by decide +kernel) rfl (by decide) (by decide) (by decide)
+  have n2 : NumTok cfgC [0x2E, 0x35] (.num (.f32 0x3F000000)) :=
+    numTok_of (n := .f32 0x3F000000) (by decide +kernel) rfl (by decide) (by decide) (by decide)
+  have harr : Value cfgC 1 [0x5B, 0x2B, 0x31, 0x2C, 0x2E, 0x35, 0x5D] (.arr [.num (.uint 1), .num (.f32 0x3F000000)]) :=
+    Value.arr 0 [0x2B, 0x31, 0x2C, 0x2E, 0x35] _
+      (Elements.cons 0 [] [0x2B, 0x31] _ [] [0x2E, 0x35] _ DWs.nil (Value.num 0 _ _ n1) DWs.nil
+        (Elements.one 0 [] [0x2E, 0x35] _ [] DWs.nil (Value.num 0 _ _ n2) DWs.nil))
+  have hstr : Value cfgC 1 [0x27, 0x78, 0x5C, 0x27, 0x22, 0x27] (.str [0x78, 0x27, 0x22]) :=
+    Value.str 1 0x27 [0x78, 0x5C, 0x27, 0x22] _ (Or.inr rfl) (by decide +kernel) (by decide)
+  exact Value.obj 1 [0x61, 0x3A, 0x27, 0x78, 0x5C, 0x27, 0x22, 0x27, 0x2C, 0x22, 0x6E, 0x22, 0x3A, 0x5B, 0x2B, 0x31, 0x2C, 0x2E, 0x35, 0x5D]
+    [([0x61], .str [0x78, 0x27, 0x22]), ([0x6E], .arr [.num (.uint 1), .num (.f32 0x3F000000)])]
+    (Members.cons 1 [] [0x61] [0x61] [] [] [0x27, 0x78, 0x5C, 0x27, 0x22, 0x27] _ []
+      [0x22, 0x6E, 0x22, 0x3A, 0x5B, 0x2B, 0x31, 0x2C, 0x2E, 0x35, 0x5D] _
+      DWs.nil (Key.bare [0x61] (by decide) (by decide)) DWs.nil DWs.nil hstr DWs.nil
+      (Members.one 1 [] [0x22, 0x6E, 0x22] [0x6E] [] [] [0x5B, 0x2B, 0x31, 0x2C, 0x2E, 0x35, 0x5D] _ []
+        DWs.nil (Key.quoted 0x22 [0x6E] [0x6E] (Or.inl rfl) (by decide +kernel) (by decide)) DWs.nil DWs.nil harr DWs.nil))
+
+/-- `complete_doc` on that text followed by ANY bytes: accepted, with the value the dialect assigns -/
+example (rest : List UInt8) :
+    (JD.run cfgC 2 (objText ++ rest)).1 = .ok ∧
+    (JD.run cfgC 2 (objText ++ rest)).2.1 =
+      .obj [([0x61], .str [0x78, 0x27, 0x22]), ([0x6E], .arr [.num (.uint 1), .num (.f32 0x3F000000)])] :=
+  complete_doc cfgC ⟨[0x2F, 0x2A, 0x2A, 0x2F], objText.drop 4, rest, rfl,
+    DWs.block [0x2A, 0x2F] [] rfl (Block.step false 0x2A [0x2F] (by decide) (by decide) Block.close) DWs.nil,
+    objValue, fun h => by cases h⟩
+
+-- the same text evaluated directly (independent of the theorems)
+example : (JD.run cfgC 2 objText).1 = .ok ∧ (JD.run cfgC 2 objText).2.2 = 26 := by decide +kernel
+
+/-! ### what the model does that the documentation does not say (kernel-checked) -/
+
+/-- without `decodeUnicode`, `\u` is copied and the four "digits" are not checked: `"\uZ"` is accepted -/
+example : (JD.run { decodeUnicode := false } 3 [0x22, 0x5C, 0x75, 0x5A, 0x22]).1 = .ok := by decide +kernel
+/-- with `decodeUnicode`, bad hex digits are refused -/
+example : (JD.run {} 3 [0x22, 0x5C, 0x75, 0x5A, 0x30, 0x30, 0x30, 0x22]).1 = .invalid := by decide +kernel
+/-- a lone low surrogate `\uDC00` is accepted and decoded as U+10000 (F0 90 80 80) -/
+example : decodeBody {} 0x22 0 [0x5C, 0x75, 0x44, 0x43, 0x30, 0x30] = some [0xF0, 0x90, 0x80, 0x80] := by decide +kernel
+/-- a surrogate pair `\uD83D\uDE00` is U+1F600 -/
+example : decodeBody {} 0x22 0 [0x5C, 0x75, 0x44, 0x38, 0x33, 0x44, 0x5C, 0x75, 0x44, 0x45, 0x30, 0x30] =
+    some [0xF0, 0x9F, 0x98, 0x80] := by decide +kernel
+/-- a top-level number must be followed by white space, NUL or the end: `1]` is refused, `1 ]` accepted -/
+example : (JD.run {} 3 [0x31, 0x5D]).1 = .invalid ∧ (JD.run {} 3 [0x31, 0x20, 0x5D]).1 = .ok := by decide +kernel
+
+end Examples
 end C10
